@@ -1,6 +1,7 @@
 SPECIFICATION Spec
 CONSTANTS
   NV = 4
+  MaxLoadBlockers = 0
   Heavy = TRUE
 VIEW View
 INVARIANT TypeOK
